@@ -118,15 +118,22 @@ def scenario(task):
             nb = len(out["bad"])
             ideal(f"default-open-after-crash", {})
             if ideal(f"create-after-crash", {"create_cache": True}):
-                for m in names:
-                    lp = [p for p in systrace.final_contents([cache_root]) if os.path.basename(p) == m + ".index"]
-                    data = open(lp[0], "rb").read() if lp else None
+                # "repairs it": afterwards every image has a usable index in the place a cached open looks first (Alos2!Src # "parse")
+                now = systrace.final_contents([cache_root, pdir])
+
+                def state(data):
+                    if data is None:
+                        return "absent"
                     try:
-                        okdoc = data is not None and json.loads(data).get("__type__") == "group"
+                        return "full" if json.loads(data).get("__type__") == "group" else "torn"
                     except Exception:
-                        okdoc = False
-                    if not okdoc:
-                        out["bad"].append(("not-repaired", f"create_cache=True succeeded but the user-cache index of {m} is {'absent' if data is None else 'torn'}"))
+                        return "torn"
+
+                for m in names:
+                    loc = state(next((v for p, v in now.items() if p.startswith(cache_root) and os.path.basename(p) == m + ".index"), None))
+                    adj = state(now.get(os.path.join(pdir, m + ".index")))
+                    if not (loc == "full" or (loc == "absent" and adj == "full")):
+                        out["bad"].append(("not-repaired", f"create_cache=True succeeded but image {m} has no usable index (user cache: {loc}, adjacent: {adj})"))
             ideal(f"cached-open-after-repair", {"use_cache": True})
             for i in range(nb, len(out["bad"])):
                 out["bad"][i] = (out["bad"][i][0], f"crash after {what} [{task['producer']} writer, cache {task['pre']} before]: {out['bad'][i][1]}")
